@@ -29,7 +29,7 @@ func runC10(r *Run) {
 	other := r.newSrvScen(srvOpts{noSecurity: true, peerStore: true, mute: true})
 	defer other.close()
 	for i := 0; i < n; i++ {
-		sc := r.newSrvScen(srvOpts{noSecurity: true, peerStore: true, callback: i%2 == 0, hook: false})
+		sc := r.newSrvScen(srvOpts{noSecurity: true, peerStore: i%4 != 3, callback: i%2 == 0 || i%4 == 3, hook: false})
 		sc.tokenGrid(other)
 		r.Result.TracesValidated++
 		if i < 2 {
@@ -43,7 +43,9 @@ func (sc *srvScen) tokenGrid(other *srvScen) {
 	r := sc.r.rng
 	sec := time.Second
 	offsets := []time.Duration{0, 1, sec, 150 * sec, 300*sec - 1}
-	delays := []time.Duration{0, sec, 299 * sec, 300 * sec, 301 * sec, 599 * sec, 600 * sec, 601 * sec, 899 * sec, 900 * sec, 901 * sec, 1200 * sec}
+	delays := []time.Duration{0, sec, 299 * sec, 300 * sec, 301 * sec, 599 * sec, 600 * sec, 601 * sec, 899 * sec, 900 * sec, 901 * sec, 1200 * sec,
+		// long uptime: whole multiples of 2^8, 2^16 and 2^32 rotation intervals later (counters that wrap)
+		256 * 300 * sec, 65536 * 300 * sec, 65536*300*sec + 61*sec, 2 * 65536 * 300 * sec, 4294967296 * 300 * sec}
 	// move to a chosen offset inside the interval
 	sc.advance(offsets[r.Intn(len(offsets))] + time.Duration(r.Intn(3))*300*sec)
 	for round := 0; round < 6 && !sc.dead; round++ {
@@ -51,7 +53,11 @@ func (sc *srvScen) tokenGrid(other *srvScen) {
 		src := sc.freshSrc(kind)
 		id := sc.r.randID()
 		issuedAt := sc.now
-		tq := sc.mkQuery([]string{"get_peers", "get"}[r.Intn(2)], id, sc.r.randID())
+		tokMethod := "get"
+		if sc.o.peerStore && r.Intn(2) == 0 {
+			tokMethod = "get_peers" // without a peer store only `get` replies carry a token
+		}
+		tq := sc.mkQuery(tokMethod, id, sc.r.randID())
 		tq.ro = true
 		res := sc.send(src, tq)
 		if !res.obs.hasTok {
